@@ -1,6 +1,6 @@
 #!/usr/bin/env python3
-"""Regenerates coq/theories/GenMem.v from the current source of src/runtime.rs and
-src/arena/cow.rs (property C02): WHERE the evaluator copies or promotes a value before it is
+"""Regenerates coq/theories/GenMem.v from the current source of src/runtime.rs,
+src/arena/cow.rs and src/process.rs (property C02): WHERE the evaluator copies or promotes a value before it is
 stored, and in which ORDER relocate_return_value stages, resets and rebuilds.
 
 Read out of the function bodies (regex over the text, comments stripped):
@@ -26,6 +26,17 @@ Read out of the function bodies (regex over the text, comments stripped):
   src_promote_copies    ArenaCow::promote: a Borrowed string inside the frame or a pool slot, and an
                         Owned string of another arena than the persistent one, are copied with
                         `pool.alloc_str`
+  src_host_discipline   host values (process builders / results) are boxed records; HostHandle::promote looks at the
+                        HANDLE's address only, so every string stored inside a record must already be persistent:
+                        eval_process_command_call_mut builds arg / env value / stdin text with
+                        `GlobalBuiltin::to_string(self.arena, ..)`, cwd / env key with eval_required_string, which copies
+                        with `ArenaString::from_str(self.arena, &text)`, and never mentions `self.frame`;
+                        eval_process_command_call runs the child with `self.arena` as the capture arena and boxes the
+                        result in `self.arena`; Value::clone_into / Value::promote delegate to HostHandle::clone_into /
+                        promote; relocate_return_value promotes `Value::Host(_)` before the reset; in src/process.rs
+                        HostHandle::promote copies a frame handle with `clone_into(pool.arena())`, and
+                        ProcessCommand / EnvPair / ProcessResult::clone_into copy every string with
+                        `ArenaString::from_str(arena, ..)`
 The file is rewritten only when its content changes.  Exit status 2 with a message when a
 function no longer has a shape this script can read (neither the expected form nor a known
 variant)."""
@@ -176,11 +187,59 @@ def generate():
         and "ifstd::ptr::eq(s.arena(),persistent){returnArenaCow::Owned(s);}" in bb
         and "ArenaCow::Owned(pool.alloc_str(s.as_str()))" in bb)
 
+    # ---- host values: every string inside a boxed record is persistent
+    proc = strip_comments(open(os.path.join(REPO, "src", "process.rs"), encoding="utf-8").read())
+    mb = squash(fn_body(rt, "eval_process_command_call_mut"))
+    rb = squash(fn_body(rt, "eval_process_command_call"))
+    qb = squash(fn_body(rt, "eval_required_string"))
+    vb_clone = squash(fn_body(rt, "clone_into"))
+    vb_prom = squash(fn_body(rt, "promote"))
+    rel = squash(fn_body(rt, "relocate_return_value"))
+    def impl_body(name):
+        mm = re.search(r"impl<'a>\s*%s<'a>\s*\{" % name, proc)
+        if not mm:
+            raise TranslatorError("process.rs: impl %s not found" % name)
+        return squash(body_from(proc, mm.start(), "impl " + name))
+    hh = impl_body("HostHandle")
+    pc = impl_body("ProcessCommand")
+    i = pc.find("pubfnclone_into<'b>(&self,arena:&'bArena)->ProcessCommand<'b>")
+    pc_clone = pc[i:] if i >= 0 else ""
+    m = re.search(r"pubfnclone_into<'b>\(&self,arena:&'bArena\)->ProcessResult<'b>\{.*?\}\}", squash(proc))
+    pr_clone = m.group(0) if m else ""
+    m = re.search(r"pubfnclone_into<'b>\(&self,arena:&'bArena\)->EnvPair<'b>\{.*?\}\}", squash(proc))
+    ep_clone = m.group(0) if m else ""
+    flags["src_host_discipline"] = bool(
+        mb.count("GlobalBuiltin::to_string(self.arena,&value)") == 3
+        and "letarg=GlobalBuiltin::to_string(self.arena,&value);" in mb
+        and "lettext=GlobalBuiltin::to_string(self.arena,&value);" in mb
+        and "letpath=self.eval_required_string(args.args[0],span)?;" in mb
+        and "letkey=self.eval_required_string(args.args[0],span)?;" in mb
+        and "self.frame" not in mb and "to_string(self.frame" not in mb
+        and qb.endswith("Ok(ArenaString::from_str(self.arena,&text))}") and "into_owned" not in qb and "self.frame" not in qb
+        and "sys::process::run(&spec,&self.host_policy.process,self.arena)" in rb
+        and "HostHandle::new_in(self.arena,HostValue::ProcessResult(result))" in rb and "self.frame" not in rb
+        and "Value::Host(host)=>Value::Host(host.clone_into(arena))" in vb_clone
+        and "Value::Host(host)=>Value::Host(host.promote(pool,frame))" in vb_prom
+        and re.search(r"ifmatches!\(val,(?:Value::\w+\(_\)\|)*Value::Host\(_\)(?:\|Value::\w+\(_\))*\)"
+                      r"\{letpromoted=val\.promote\(&self\.pool,self\.frame\);", rel) is not None
+        and "if!frame.contains_ptr(self.0.as_ptr().cast::<u8>().cast_const()){returnself;}"
+            "HostHandle::new_in(pool.arena(),self.get().clone_into(pool.arena()))" in hh
+        and "HostHandle::new_in(arena,self.get().clone_into(arena))" in hh
+        and "args.push(ArenaString::from_str(arena,arg.as_str()));" in pc_clone
+        and "env.push(pair.clone_into(arena));" in pc_clone
+        and "program:ArenaString::from_str(arena,self.program.as_str())" in pc_clone
+        and "ArenaString::from_str(arena,cwd" in pc_clone
+        and "StdinPolicy::Text(text)=>StdinPolicy::Text(ArenaString::from_str(arena,text))" in pc_clone
+        and "key:ArenaString::from_str(arena,self.key.as_str())" in ep_clone
+        and "value:ArenaString::from_str(arena,self.value.as_str())" in ep_clone
+        and "stdout:self.stdout.as_ref().map(|stdout|ArenaString::from_str(arena,stdout))" in pr_clone
+        and "stderr:self.stderr.as_ref().map(|stderr|ArenaString::from_str(arena,stderr))" in pr_clone)
+
     lines = ["(* GENERATED by translator/gen_mem.py from src/runtime.rs and src/arena/cow.rs — do not edit. *)",
              "(* Where the evaluator copies/promotes before storing, and the order of the staging in",
              "   relocate_return_value.  Properties/C02.v requires all of them to be true. *)"]
     for k in ("src_var_read_clones", "src_args_evaluated", "src_clone_copies", "src_clone_rebuilds", "src_promote_rebuilds", "src_bind_promotes",
-              "src_relocate_stages", "src_relocate_arrays", "src_stores_promote", "src_promote_copies"):
+              "src_relocate_stages", "src_relocate_arrays", "src_stores_promote", "src_promote_copies", "src_host_discipline"):
         lines.append("Definition %s : bool := %s." % (k, "true" if flags[k] else "false"))
     return "\n".join(lines) + "\n"
 
